@@ -24,7 +24,9 @@ run_case() { # name id expect patchcmd
   if [ "$expect" = "PASS" ]; then
     if [ $rc -eq 0 ]; then echo "ok    $name: $id passes"; else echo "FAIL  $name: $id raised an alarm on a harmless edit"; echo "$out" | grep -E "^VIOLATION|^FAILED" | head -3; fail=$((fail+1)); fi
   else
-    if [ $rc -ne 0 ] && echo "$out" | grep -E "^VIOLATION" | grep -qF -- "$expect"; then echo "ok    $name: $id reports $expect"
+    # ordinals of obligation sites shift when code is inserted: compare modulo digits
+    pat=$(printf '%s' "$expect" | sed -E 's/[][().*$^+?{}|\\]/\\&/g; s/([a-z])[0-9]+\//\1[0-9]+\//g')
+    if [ $rc -ne 0 ] && echo "$out" | grep -E "^VIOLATION" | grep -qE -- "$pat"; then echo "ok    $name: $id reports $expect"
     else echo "FAIL  $name: $id did not report $expect (exit $rc)"; echo "$out" | grep -E "^VIOLATION|^C[0-9]+ " | head -3; fail=$((fail+1)); fi
   fi
   git -C "$scratch/wt" checkout -q -- . ; git -C "$scratch/wt" clean -fdq
